@@ -128,7 +128,7 @@ def _type_obj(tid):
                       is_specialization_of=absint.Sym('spec#%s' % tid))
 
 
-def run_situation(repo, sit, order=None):
+def run_situation(repo, sit, order=None, payload_fails=False):
     """Interpret choose_overload on `sit`.  `order`: a permutation applied to
     the candidates of every two-candidate layer (to look for a dependence on
     enumeration order).  -> (outcome, trace)"""
@@ -249,7 +249,12 @@ def run_situation(repo, sit, order=None):
             return (absint.Sym('delegate#%d.%d' % cid),)
         if callee.startswith('delegate#'):
             cid = tuple(int(x) for x in callee[9:].split('.'))
+            first = not any(t[0] == 'ran' for t in trace)
             trace.append(('ran', cid))
+            if payload_fails and first:
+                # the chosen overload refuses its arguments while it runs
+                # (a converter or the payload raises an argument error)
+                return (absint._Raise('ArgumentException'),)
             return (absint.Sym('result'),)
         if callee.startswith('eval#'):
             key = ast.literal_eval(callee[5:])
@@ -302,6 +307,9 @@ def run_situation(repo, sit, order=None):
                 out = ('raise', r.v)
     except absint.Unsupported as e:
         raise NotDecided(str(e))
+    if out[0] == 'raise' and payload_fails:
+        ran = [t[1] for t in trace if t[0] == 'ran']
+        return ('raised', str(out[1]).rsplit('.', 1)[-1], tuple(ran)), trace
     if out[0] == 'raise':
         nm = str(out[1]).rsplit('.', 1)[-1]
         kind = 'ambiguous' if nm.startswith('Ambiguous') else (
@@ -407,7 +415,7 @@ def verdicts(repo):
         'outcome', 'error-flavour', 'single-sweep', 'sweep-before-delegates',
         'sweep-after-mapping', 'positional-before-keyword', 'lazy-untouched',
         'delegates-get-values', 'first-layer-wins', 'order-independent',
-        'no-evaluation-when-unmatched')}
+        'no-evaluation-when-unmatched', 'chosen-overload-runs-alone')}
     n = 0
     for sit in situations():
         exp, evaluated = sit.expected()
@@ -493,6 +501,16 @@ def verdicts(repo):
                         '%s: candidates of an outer layer are asked for a '
                         'delegate although the nearest layer has a match'
                         % desc)
+        if got[0] == 'run':
+            # the same call when the chosen overload fails while it runs:
+            # its error is the call's error, nothing else is tried
+            got3, _ = run_situation(repo, sit, payload_fails=True)
+            if got3 != ('raised', 'ArgumentException', (got[1],)):
+                bad['chosen-overload-runs-alone'].append(
+                    '%s: when the chosen overload %s raises an argument '
+                    'error while it runs the outcome is %s (expected: that '
+                    'error, and no other overload run)' % (desc, got[1],
+                                                           got3))
         width = max(len(layer) for layer in sit.layers)
         if width >= 2:
             for perm in itertools.permutations(range(width)):
